@@ -947,6 +947,38 @@ def r11_error_transport(ctx):
     yield Ob('x12file:X12Base.pop_errors hands the pending list over and starts a new one', not msg, ctx.floc(fn), msg)
 
 
+def r12_context_node_keeps_each_level(ctx):
+    """through the context reader an envelope error is found on the yielded node under its own level: handle_errh_errors
+    decided by constant propagation - the node's isa / gs / st / seg / ele lists each grow by exactly the collector's
+    list of the same level (a group error filed under another level is an envelope error lost and another invented)."""
+    from ..absint import explore, helper_oracles
+    fn = ctx.func('x12context', 'X12SegmentDataNode.handle_errh_errors')
+    g = ctx.cfg(fn)
+    LV = ('isa', 'gs', 'st', 'seg', 'ele')
+    errh = A.Model('errh', **{'err_' + l: (('%s-error' % l, 1), ('%s-error' % l, 2)) for l in LV})
+    env = {'self.err_' + l: (('old-%s' % l, 0),) for l in LV}
+    env['errh'] = errh
+    fin = []
+
+    def on_node(nd, e):
+        if nd is g.exit:
+            fin.append(dict(e))
+
+    def unk(nd, e):
+        raise AnalysisError('handle_errh_errors: a test cannot be decided: %s' % norm(nd.ast))
+    explore(g, env, funcs=helper_oracles(ctx, 'x12context'), on_node=on_node, on_unknown=unk)
+    if not fin:
+        raise AnalysisError('handle_errh_errors: no outcome')
+    msg = ''
+    for e in fin:
+        for l in LV:
+            want = (('old-%s' % l, 0), ('%s-error' % l, 1), ('%s-error' % l, 2))
+            got = e.get('self.err_' + l)
+            if got != want and not msg:
+                msg = 'the node\'s %s errors become %s, expected its own plus the collector\'s %s errors %s' % (l, list(got) if isinstance(got, tuple) else got, l, list(want))
+    yield Ob('x12context:X12SegmentDataNode.handle_errh_errors files every collected error under its own level', not msg, ctx.floc(fn), msg)
+
+
 RULES = [
     Rule('C04.R1', 'header/trailer compare-reset wiring derived from the branch labels of _parse_segment', r1_wiring, floor=37),
     Rule('C04.R2', 'top-of-stack reads/deletes/pops of emptiable lists hold NonEmpty (typestate on the CFG)', r2_stack_safety, floor=13),
@@ -958,5 +990,6 @@ RULES = [
     Rule('C04.R6', 'trailer checks decided by constant propagation: stack shape x control number x declared count', r6_trailer_semantics, floor=2),
     Rule('C04.R5', 'shared with C01.R3/R5: no segment is damaged or lost at a buffer boundary', r5_shared_tokenizer, floor=6),
     Rule('C04.R11', 'recorders append on every path; pop_errors returns the pending errors and leaves a new, distinct, empty list', r11_error_transport, floor=5),
+    Rule('C04.R12', 'context reader: collected errors are filed on the node under their own level (constant propagation)', r12_context_node_keeps_each_level, floor=1),
     Rule('C04.R4', 'pending reader errors are only removed by pop_errors, never per segment', r4_pending_errors_kept, floor=2),
 ]
